@@ -226,6 +226,10 @@ pub fn gen_file_c(rng: &mut Rng, l: &L, opts: &Opts, patterns: &mut Vec<String>,
             let mut rules: Vec<(String, String)> = if opts.rules && rng.chance(3, 4) {
                 rng.pick(RULE_SETS).iter().map(|(k, v)| (k.to_string(), v.to_string())).collect()
             } else { vec![] };
+            if opts.rules && rng.chance(1, 2) && !rules.iter().any(|(k, _)| k == "severity") && !rules.is_empty() {
+                let sev = ["error", "warning", "info", "hint", "Warning", "HINT", "ERROR", "Info"][rng.below(8)];
+                rules.push(("severity".to_string(), sev.to_string()));
+            }
             if l.exts[0] == "md" && rules.iter().any(|(_, v)| v.contains('(')) {
                 // parentheses would collide with the `[//]: # (…)` title delimiter
                 rules = vec![("line-count".to_string(), "<0".to_string())];
@@ -402,6 +406,46 @@ pub fn generate_unbalanced(_ctx: &mut Ctx, seed: u64, i: usize) -> Case {
         changes,
         patterns,
         meta: json!({"gen": "unbalanced", "i": i, "bad": bad_path, "op": op, "diff_mode": diff_mode}),
+        ..Default::default()
+    }
+}
+
+pub const VALIDATORS: &[&str] = &["affects", "keep-sorted", "keep-unique", "line-pattern", "line-count", "check-ai", "check-lua"];
+
+/// C11 / C14 / C20: 1-4 files of mixed languages, several rules per block, all severities;
+/// with `flags` a random subset of the seven validators is given to --enable or --disable
+pub fn generate_multi(_ctx: &mut Ctx, seed: u64, i: usize, flags: bool) -> Case {
+    let mut rng = Rng::new(seed, i as u64);
+    let exts = all_exts();
+    let nfiles = 1 + rng.below(4);
+    let mut files = vec![];
+    let mut patterns = vec![];
+    for k in 0..nfiles {
+        let ext = exts[(i * 5 + k * 11) % exts.len()];
+        let l = lang_for(ext);
+        let opts = Opts { fancy: rng.chance(1, 5), rules: true, crlf: rng.chance(1, 8), lookalikes: rng.chance(1, 6) };
+        let path = if ["Makefile", "makefile", "go.mod", "go.sum", "go.work"].contains(&ext) { format!("d{k}/{ext}") } else { format!("{}f{k}.{ext}", ["", "src/", "a b/"][rng.below(3)]) };
+        let f = gen_file(&mut rng, l, &opts, &mut patterns);
+        files.push((path, Some(f.text)));
+    }
+    let mut walk: Vec<String> = files.iter().map(|f| f.0.clone()).collect();
+    rng.shuffle(&mut walk);
+    let (mut enabled, mut disabled) = (vec![], vec![]);
+    if flags {
+        let subset: Vec<String> = VALIDATORS.iter().filter(|_| rng.chance(1, 2)).map(|s| s.to_string()).collect();
+        let mut subset = subset;
+        if rng.chance(1, 4) && !subset.is_empty() { let d = subset[0].clone(); subset.push(d); } // repeated flag
+        if rng.chance(1, 2) { enabled = subset } else { disabled = subset }
+    }
+    Case {
+        files,
+        allow: walk.clone(),
+        walk,
+        scan: true,
+        patterns,
+        enabled,
+        disabled,
+        meta: json!({"gen": "multi", "i": i, "flags": flags}),
         ..Default::default()
     }
 }
